@@ -200,9 +200,9 @@ func (x *c04) r1r2r4r5() {
 			}
 		}
 		// leaf returns true
-		for n := range g.Ins {
-			if reach[n] && ret(n) {
-				if b, ok := constBool(g.Ins[n].(*ssa.Return).Results[0]); (!ok || !b) && bad == "" {
+		for _, rc := range g.ReturnCases() {
+			if reach[rc.At] {
+				if b, ok := constBool(rc.Vals[0]); (!ok || !b) && bad == "" {
 					bad = "the last level does not return true"
 				}
 			}
@@ -323,7 +323,7 @@ func (x *c04) r4(g *IG, w *ssa.Function, pte ssa.Value, leaf Edge) {
 	if bad == "" {
 		// failure side: returns false, no pte write
 		for _, e := range failE {
-			r := g.Reach([]int{g.Succ[e.From][e.K]}, nil, nil)
+			r := g.ReachAssuming(e, nil)
 			for n := range g.Ins {
 				if !r[n] {
 					continue
@@ -331,8 +331,10 @@ func (x *c04) r4(g *IG, w *ssa.Function, pte ssa.Value, leaf Edge) {
 				if _, ok := x.isPteWrite(g, n, pte); ok {
 					bad = "the entry is written although the allocation of the new table failed"
 				}
-				if ret(n) {
-					if b, ok := constBool(g.Ins[n].(*ssa.Return).Results[0]); !ok || b {
+			}
+			for _, rc := range g.ReturnCases() {
+				if r[rc.At] {
+					if b, ok := constBool(rc.Vals[0]); !ok || b {
 						bad = "the walk continues although the allocation of the new table failed"
 					}
 				}
@@ -400,9 +402,9 @@ func (x *c04) r4(g *IG, w *ssa.Function, pte ssa.Value, leaf Edge) {
 				}
 			}
 			r := g.Reach([]int{start}, nil, nil)
-			for n := range g.Ins {
-				if r[n] && ret(n) {
-					if b, ok := constBool(g.Ins[n].(*ssa.Return).Results[0]); !ok || !b {
+			for _, rc := range g.ReturnCases() {
+				if r[rc.At] {
+					if b, ok := constBool(rc.Vals[0]); !ok || !b {
 						bad = "the walk stops after a new table was installed"
 					}
 				}
@@ -414,7 +416,7 @@ func (x *c04) r4(g *IG, w *ssa.Function, pte ssa.Value, leaf Edge) {
 	hugeOK := false
 	for _, f := range g.AllEdgeFacts() {
 		if _, ok := predicateFact(m, f, x.hasFlags, x.flagHuge, true); ok {
-			r := g.Reach([]int{g.Succ[f.Edge.From][f.Edge.K]}, nil, nil)
+			r := g.ReachAssuming(f.Edge, nil)
 			hugeOK = true
 			for n := range g.Ins {
 				if _, ok := x.isPteWrite(g, n, pte); ok && r[n] {
@@ -476,9 +478,9 @@ func (x *c04) r5(outer, w *ssa.Function) {
 		}
 		// in the walker: every `return false` is preceded by a store of a non-nil-able error into the cell
 		gw := newIG(m, w, nil)
-		for _, wr := range gw.Returns() {
-			if b, ok := constBool(gw.Ins[wr].(*ssa.Return).Results[0]); ok && !b {
-				if okb, _ := gw.MustPassBefore(wr, func(n int) bool {
+		for _, wrc := range gw.ReturnCases() {
+			if b, ok := constBool(wrc.Vals[0]); ok && !b {
+				if okb := gw.CaseMustPassBefore(wrc, func(n int) bool {
 					st, ok := gw.Ins[n].(*ssa.Store)
 					if !ok {
 						return false
@@ -726,14 +728,33 @@ func (x *c04) regionRule(rule string, names []string) {
 			if len(failE) == 0 {
 				bad = "the error of the map call is not tested"
 			}
+			// on the failure side the opposite outcome of a later test of the same
+			// error (directly or through the error variable) cannot be taken
+			contra := map[Edge]bool{}
+			for _, f := range g.AllEdgeFacts() {
+				if isNilFact(f, token.EQL, func(v ssa.Value) bool { return v == ssa.Value(call) }) {
+					contra[f.Edge] = true
+				}
+			}
+			_ = contra
 			for _, e := range failE {
-				r := g.Reach([]int{g.Succ[e.From][e.K]}, nil, nil)
+				r := g.ReachAssuming(e, nil)
 				for n := range g.Ins {
 					if r[n] && m.callsTo(g.Ins[n], x.mapFn) {
 						bad = "mapping continues after a page failed to map"
 					}
-					if rt, ok := g.Ins[n].(*ssa.Return); ok && r[n] && rt.Results[len(rt.Results)-1] != ssa.Value(call) {
-						bad = "the map error is not what is returned"
+					if rt, ok := g.Ins[n].(*ssa.Return); ok && r[n] && rt.Parent() == fn {
+						// the returned error is the map call's result, possibly through
+						// an error variable that merges it with earlier (nil) values
+						isCall := false
+						for _, vc := range g.valueCases(rt.Results[len(rt.Results)-1], n) {
+							if vc.Val == ssa.Value(call) {
+								isCall = true
+							}
+						}
+						if !isCall {
+							bad = "the map error is not what is returned"
+						}
 					}
 				}
 			}
